@@ -33,6 +33,14 @@ Definition agree (k : case) : bool :=
                 && hdr_eqb (present (o_headers o)) (present (r_headers r)))%bool
       | _ => false
       end
+  | Upgraded up =>
+      match o_ups o with
+      | [u] => (String.eqb (s_method u) (p_method up) && String.eqb (s_uri u) (p_uri up)
+                && String.eqb (s_host u) (p_host up) && String.eqb (s_body u) (p_body up)
+                && hdr_eqb (present (s_headers u)) (present (p_headers up))
+                && Z.eqb (o_status o) (r_status (k_reply k)) && String.eqb (o_body o) (r_body (k_reply k)))%bool
+      | _ => false
+      end
   | Terminated _ t =>
       (match o_ups o with [] => true | _ => false end && Z.eqb (o_status o) (t_code t)
        && vals_eqb (h_values "Retry-After" (o_headers o)) (t_retry_after t)
